@@ -646,7 +646,12 @@ class Exec:
         if self.pv.feasible(list(getattr(ent, "pc_outer", [])) + [in_range, z3.Not(zbool(ent.guard))]) is not False:
             raise Unsupported("keys of a dict built under a guard (some iterations may not insert)")
         if not any(is_z3(part) and part.eq(var) for part in ent.key):
-            raise Unsupported("keys of a dict whose key does not carry the loop index (distinctness unknown)")
+            # distinctness by the solver: two different iterations cannot produce equal keys
+            v2 = z3.FreshConst(z3.IntSort(), "other")
+            key2 = subst(ent.key, [(var, v2)])
+            same = self.equal(tuple(ent.key), tuple(key2), fr)
+            if self.pv.feasible(list(getattr(ent, "pc_outer", [])) + [in_range, z3.And(zint(lo) <= v2, v2 < zint(hi)), var != v2, zbool(same)]) is not False:
+                raise Unsupported("keys of a dict whose keys are not provably distinct across iterations")
         lo_, hi_ = zint(lo), zint(hi)
         key = ent.key if len(ent.key) != 1 else ent.key[0]
         return Seq(simp_int(z3.If(hi_ > lo_, hi_ - lo_, 0)), lambda k, key=key, var=var, lo_=lo_: subst(key, [(var, simp_int(lo_ + zint(k)) if not isinstance(simp_int(lo_ + zint(k)), int) else z3.IntVal(simp_int(lo_ + zint(k))))]), "list")
@@ -1406,6 +1411,8 @@ class Exec:
                 return None
             if name == "copy" and not args:
                 return self.new_dict(fr, fr.heap[base.oid])
+            if name == "keys" and not args:
+                return self.dict_keys_seq(base, fr)
             raise Unsupported("dict." + name)
         if isinstance(base, SetVal):
             if name == "issubset" and len(args) == 1:
